@@ -41,6 +41,7 @@ RULES = {
     "MEMPAIR": memory.rule_mempair,
     "FREEONCE": memory.rule_freeonce,
     "WINALIAS@live": memory.rule_winalias_live,
+    "ALIASCLOSED": memory.rule_aliasclosed,
     "MUT": purity.rule_mut,
     "ATTRSTORE": purity.rule_attrstore,
     "GLOBALSTATE": purity.rule_globalstate,
